@@ -8,14 +8,6 @@
 \* frame condition Immutable says that nothing that existed before the step has changed.
 EXTENDS HTypes
 
-\* transitive supertypes by *textual* substitution of the arguments (the statement of C07: "the class's declared
-\* supertypes with every occurrence of its type parameters replaced by the corresponding argument, transitively")
-TextualDirect(CT, S) == {Subst(CT[S.n].sup[i], ParamMap(CT, S)) : i \in DOMAIN CT[S.n].sup}
-RECURSIVE TextualFrom(_, _)
-TextualFrom(CT, Ts) == LET nxt == Ts \cup UNION {TextualDirect(CT, t) : t \in {u \in Ts : u.k = "C"}} IN
-                       IF nxt = Ts THEN Ts ELSE TextualFrom(CT, nxt)
-SupersTextual(CT, S) == TextualFrom(CT, {S})
-
 SelfType(CT, c) == Cls(c, [i \in DOMAIN CT[c].tp |-> Var(CT[c].tp[i].n, CT[c].tp[i].b)])
 \* projections with a bound replaced by that bound (nested projections unwrapped), other arguments kept
 RECURSIVE Core(_)
